@@ -526,8 +526,30 @@ Proof.
   destruct r; [congruence|]. destruct v; [congruence|]. split; reflexivity.
 Qed.
 
-(* the tags as they are written: what the dedup of MarshalJSON compares *)
-Definition wkey (e : lrv) : bytes := string_bytes (fst e).
+(* a well-formed tag reads back as itself *)
+Lemma tag_as_read_valid_n n : forall t, length t <= n -> utf8_valid t = true -> tag_as_read t = t.
+Proof.
+  induction n as [|n IH]; intros t Hl Hv.
+  - destruct t; [reflexivity|simpl in Hl; lia].
+  - destruct t as [|b r]; [reflexivity|]. simpl in Hl.
+    rewrite utf8_valid_cons in Hv. cbn [tag_as_read].
+    destruct (bn b <? 128)%N.
+    + rewrite IH; [reflexivity|lia|exact Hv].
+    + destruct (utf8_n b) as [|[|[|[|k]]]]; try discriminate.
+      * destruct r as [|c1 r1]; [discriminate|]. apply andb_true_iff in Hv. destruct Hv as [H1 Hv].
+        rewrite H1. simpl in Hl. rewrite IH; [reflexivity|lia|exact Hv].
+      * destruct r as [|c1 [|c2 r2]]; try discriminate.
+        rewrite !andb_true_iff in Hv. destruct Hv as [[H1 H2] Hv]. rewrite H1, H2. simpl andb. cbv iota. simpl in Hl.
+        rewrite IH; [reflexivity|lia|exact Hv].
+      * destruct r as [|c1 [|c2 [|c3 r3]]]; try discriminate.
+        rewrite !andb_true_iff in Hv. destruct Hv as [[[H1 H2] H3] Hv]. rewrite H1, H2, H3. simpl andb. cbv iota. simpl in Hl.
+        rewrite IH; [reflexivity|lia|exact Hv].
+Qed.
+Lemma tag_as_read_valid t : valid_utf8 t -> tag_as_read t = t.
+Proof. intros H. apply (tag_as_read_valid_n (length t)); [lia|exact H]. Qed.
+
+(* the tags as they are read back (tagAsRead): what the dedup of MarshalJSON compares *)
+Definition wkey (e : lrv) : bytes := tag_as_read (fst e).
 
 Lemma map_step_ok e b (first : bool) keys : ok_entry e -> existsb (bytes_eqb (wkey e)) keys = false ->
   nlv_map_step true true (b, first, keys) e =
@@ -738,15 +760,13 @@ Proof.
   rewrite <- (escape_core false a Ha), <- (escape_core false b Hb), H1. reflexivity.
 Qed.
 
-Lemma wkeys_nodup l : Forall ok_entry l -> NoDup (map fst l) -> NoDup (map wkey l).
+Lemma wkeys_fst l : Forall ok_entry l -> map wkey l = map fst l.
 Proof.
-  induction l as [|e r IH]; intros Hok Hnd; [constructor|].
-  inversion Hok as [|? ? He Hr]; subst. cbn [map] in *. inversion Hnd as [|? ? Hni Hnd']; subst.
-  constructor; [|exact (IH Hr Hnd')].
-  intros Hin. apply Hni. apply in_map_iff in Hin. destruct Hin as [x [Hx Hxin]]. apply in_map_iff. exists x. split; [|exact Hxin].
-  unfold wkey in Hx. rewrite Forall_forall in Hr. pose proof (Hr x Hxin) as Hxo.
-  destruct Hxo as [Hv1 _]. destruct He as [Hv2 _]. exact (string_bytes_inj _ _ Hv1 Hv2 Hx).
+  induction 1 as [|e r He Hr IH]; [reflexivity|]. cbn [map]. rewrite IH. unfold wkey.
+  destruct He as [Hv _]. rewrite (tag_as_read_valid _ Hv). reflexivity.
 Qed.
+Lemma wkeys_nodup l : Forall ok_entry l -> NoDup (map fst l) -> NoDup (map wkey l).
+Proof. intros Hok Hnd. rewrite (wkeys_fst l Hok). exact Hnd. Qed.
 
 (* a language MAP: the tags are pairwise distinct.  (Of several values under one tag only the first is written, since
    fix 05721dc: json_multi_dup below.) *)
